@@ -877,6 +877,22 @@ fn op_typed_request(case: &Value) -> Value {
 }
 
 // ---------------------------------------------------------------------------------- C06 (document level, native witness)
+#[derive(Serialize, JsonSchema)]
+enum CachePolicy { NoStore, Public }
+#[derive(Serialize, JsonSchema)]
+struct CacheHeader(CachePolicy);
+#[derive(Serialize, JsonSchema)]
+struct DocHeaders { #[serde(rename = "x-cache")] cache: CacheHeader, #[serde(rename = "x-n")] n: Option<u32> }
+#[derive(Serialize, JsonSchema)]
+struct DocBody { inner: Vec<DocInner>, maybe: Option<Box<DocInner>> }
+#[derive(Serialize, JsonSchema)]
+struct DocInner { n: u64 }
+
+#[endpoint { method = GET, path = "/zz-doc" }]
+async fn doc_endpoint(_r: RequestContext<()>) -> Result<dropshot::HttpResponseHeaders<HttpResponseOk<DocBody>, DocHeaders>, HttpError> {
+    Ok(dropshot::HttpResponseHeaders::new(HttpResponseOk(DocBody { inner: vec![], maybe: None }), DocHeaders { cache: CacheHeader(CachePolicy::Public), n: None }))
+}
+
 /// {"op":"openapi","endpoints":[{id,method,path(literals only),versions,visible}],"orders":[[..],..],"versions":[..]}
 /// -> per version: operations [[path, METHOD, id]], identical across orders / repeated generation, all $refs resolve
 fn op_openapi(case: &Value) -> Value {
@@ -894,6 +910,7 @@ fn op_openapi(case: &Value) -> Value {
                 let e = crate::make_endpoint(&eps[i]).expect("endpoint");
                 if let Err(e) = api.register(e) { return json!({"error": format!("register: {:?}", e)}); }
             }
+            api.register(doc_endpoint).unwrap();
             let mut a = vec![];
             api.openapi("t", v.clone()).write(&mut a).unwrap();
             let mut b = vec![];
